@@ -16,35 +16,40 @@ _state = {"count": 0, "budget": 0, "active": False}
 def _on_jump(code, src, dst):  # pylint: disable=unused-argument
     st = _state
     st["count"] += 1
-    if st["count"] > st["budget"]:
+    if st["count"] > st["budget"] and st["active"]:
         st["count"] = 0  # allow unwinding code to run
         raise SimBudgetExceeded(f"more than {st['budget']} loop iterations in one run (no progress)")
 
 
 class StepMeter:
-    """Context manager: meter JUMP events while the body runs."""
+    """
+    Context manager: meter JUMP events while the body runs.  Monitoring is switched on once per
+    process and stays on (toggling it re-instruments every code object); outside a metered region the
+    callback only counts.  A meter opened inside another one (a check that measures a run which the
+    reader harness meters as well) takes over and hands the outer one its count back on exit.
+    """
 
     def __init__(self, budget: int):
         self.budget = budget
         self.used = 0
+        self._outer = None
 
     def __enter__(self):
-        mon = sys.monitoring
-        if _state["active"]:
-            raise RuntimeError("StepMeter is not re-entrant")
-        try:
-            mon.use_tool_id(TOOL_ID, "dst-step-meter")
-        except ValueError:
-            pass
+        if not _state.get("installed"):
+            mon = sys.monitoring
+            try:
+                mon.use_tool_id(TOOL_ID, "dst-step-meter")
+            except ValueError:
+                pass
+            mon.register_callback(TOOL_ID, mon.events.JUMP, _on_jump)
+            mon.set_events(TOOL_ID, mon.events.JUMP)
+            _state["installed"] = True
+        self._outer = (_state["count"], _state["budget"], _state["active"])
         _state.update(count=0, budget=self.budget, active=True)
-        mon.register_callback(TOOL_ID, mon.events.JUMP, _on_jump)
-        mon.set_events(TOOL_ID, mon.events.JUMP)
         return self
 
     def __exit__(self, *exc):
-        mon = sys.monitoring
-        mon.set_events(TOOL_ID, 0)
-        mon.register_callback(TOOL_ID, mon.events.JUMP, None)
         self.used = _state["count"]
-        _state["active"] = False
+        count, budget, active = self._outer
+        _state.update(count=count + self.used if active else 0, budget=budget, active=active)
         return False
